@@ -149,9 +149,15 @@ type c01Prog struct {
 	mtypes  []int // expected metrics.Type per metric (-1: any)
 	mnames  []string
 	npat    int
+	pats    []c01Pat // per pattern: regexp source and, for =~, the pattern whose capture is matched against
 	consts  []string
 	body    []*cN
 	bodyTxt []string
+}
+
+type c01Pat struct {
+	re   string
+	subj int // -1: matched against the line
 }
 
 const (
@@ -191,8 +197,10 @@ func (p *c01Prog) pat(class string) (*cN, *cN) {
 	case "lower":
 		re = `[a-z]+`
 	case "none":
+		p.pats = append(p.pats, c01Pat{fmt.Sprintf("K%d=x", i+1), -1})
 		return &cN{K: "pat", I: int64(i), T: ctBool, txt: fmt.Sprintf("/K%d=x/", i+1)}, nil
 	}
+	p.pats = append(p.pats, c01Pat{fmt.Sprintf("K%d=(?P<%s>%s)", i+1, name, re), -1})
 	pt := &cN{K: "pat", I: int64(i), T: ctBool, txt: fmt.Sprintf("/K%d=(?P<%s>%s)/", i+1, name, re)}
 	cp := &cN{K: "cap", I: int64(i), D: 1, T: t, txt: "$" + name}
 	return pt, cp
@@ -215,7 +223,19 @@ func (p *c01Prog) smatch(x *cN, neg bool) *cN {
 	if neg {
 		k = "nsmatch"
 	}
+	p.pats = append(p.pats, c01Pat{fmt.Sprintf("S%d", i+1), int(x.I)})
 	return &cN{K: k, I: int64(i), A: []*cN{x}, T: ctBool, txt: fmt.Sprintf("/S%d/", i+1)}
+}
+
+// smatchCap: expr =~ /re/ where re (given) has one named capture group of
+// digits; several patterns of one program may share the text.
+func (p *c01Prog) smatchCap(x *cN, re, group string) (*cN, *cN) {
+	i := p.npat
+	p.npat++
+	p.pats = append(p.pats, c01Pat{re, int(x.I)})
+	m := &cN{K: "smatch", I: int64(i), A: []*cN{x}, T: ctBool, txt: "/" + re + "/"}
+	cp := &cN{K: "cap", I: int64(i), D: 1, T: ctInt, txt: "$" + group}
+	return m, cp
 }
 
 func cBlock(stmts ...*cN) *cN { return &cN{K: "block", A: stmts} }
@@ -296,6 +316,7 @@ type c01Shape struct {
 	Src   string
 	Lit   string
 	Types []int
+	Pats  []c01Pat
 }
 
 func (p *c01Prog) shape(name string, quick bool, defs string) c01Shape {
@@ -317,7 +338,7 @@ func (p *c01Prog) shape(name string, quick bool, defs string) c01Shape {
 		}
 	}
 	strip(prog)
-	return c01Shape{Name: name, Quick: quick, Src: src, Lit: prog.lit(), Types: p.mtypes}
+	return c01Shape{Name: name, Quick: quick, Src: src, Lit: prog.lit(), Types: p.mtypes, Pats: p.pats}
 }
 
 var c01IntOps = []string{"+", "-", "*", "/", "%", "**", "<<", ">>", "&", "|", "^"}
@@ -434,6 +455,20 @@ func c01Shapes() []c01Shape {
 			}
 			out = append(out, p.shape(name, !neg, ""))
 		}
+	}
+	// F3b: two =~ with the same pattern text on different strings
+	{
+		p := &c01Prog{}
+		both := p.metric("counter both", "both", mtInt)
+		first := p.metric("counter first by n", "first", mtInt)
+		pt, a := p.pat("word")
+		pt2, bb := p.pat("word")
+		re := `^(?P<n>\d+)$`
+		m1, n1 := p.smatchCap(a, re, "n")
+		m2, _ := p.smatchCap(bb, re, "n")
+		p.body = []*cN{cCond(pt, cBlock(cCond(pt2, cBlock(
+			cCond(m1, cBlock(cCond(m2, cBlock(p.inc(both)), nil), p.inc(first, n1)), nil)), nil)), nil)}
+		out = append(out, p.shape("smatch-same-text-different-strings", true, ""))
 	}
 	// F4: scoping of nested conditionals, else and otherwise
 	{
@@ -645,15 +680,35 @@ func c01Gen(shapes []c01Shape) (map[string]string, error) {
 		if o.Errors != "" {
 			return nil, fmt.Errorf("VIOLATION-CANDIDATE well-typed program %s is rejected by the compiler: %s\n%s", s.Name, o.Errors, s.Src)
 		}
-		for ri, re := range o.Regexps {
-			if !strings.Contains(re, fmt.Sprintf("K%d=", ri+1)) && !strings.Contains(re, fmt.Sprintf("S%d", ri+1)) {
-				return nil, fmt.Errorf("shape %s: regexp %d of the compiled object is %q, not pattern %d of the intended tree", s.Name, ri, re, ri+1)
+		// which compiled regexp belongs to which pattern of the tree: the k-th
+		// pattern with a given text is the k-th compiled regexp with that text
+		// (if the compiler keeps fewer, the last one it has)
+		seenText := map[string]int{}
+		var reIndex []int
+		for _, pt := range s.Pats {
+			k := seenText[pt.re]
+			seenText[pt.re]++
+			found, last := -1, -1
+			n := 0
+			for ri, re := range o.Regexps {
+				if re == pt.re {
+					last = ri
+					if n == k {
+						found = ri
+					}
+					n++
+				}
 			}
+			if found < 0 {
+				found = last
+			}
+			// (-1: a pattern the shape declares but does not use)
+			reIndex = append(reIndex, found)
 		}
 		b.WriteString(genObjectFunc("verifObj_"+id, o, nil))
 		fmt.Fprintf(&b, "var verifCaps_%s = [][]int{", id)
-		for _, re := range o.Regexps {
-			cs, err := capClasses(re)
+		for _, pt := range s.Pats {
+			cs, err := capClasses(pt.re)
 			if err != nil {
 				return nil, err
 			}
@@ -664,12 +719,17 @@ func c01Gen(shapes []c01Shape) (map[string]string, error) {
 			b.WriteString("}, ")
 		}
 		b.WriteString("}\n\n")
+		fmt.Fprintf(&b, "var verifPats_%s = []rPat{", id)
+		for pi, pt := range s.Pats {
+			fmt.Fprintf(&b, "{%q, %d, %d}, ", pt.re, pt.subj, reIndex[pi])
+		}
+		b.WriteString("}\n\n")
 		ts := "[]int{"
 		for _, t := range s.Types {
 			ts += fmt.Sprintf("%d, ", t)
 		}
 		ts += "}"
-		fmt.Fprintf(&b, "func HarnessVM01_%s() { vmCheckRef(verifObj_%s, verifCaps_%s, %q, %s, %s) }\n\n", id, id, id, s.Name, s.Lit, ts)
+		fmt.Fprintf(&b, "func HarnessVM01_%s() { vmCheckRef(verifObj_%s, verifCaps_%s, %q, %s, %s, verifPats_%s) }\n\n", id, id, id, s.Name, s.Lit, ts, id)
 	}
 	return map[string]string{"vm_objects.go": b.String()}, nil
 }
